@@ -49,3 +49,8 @@ package stdlib_contracts
 //@ pure
 //@ requires z != nil
 //@ ensures result == (u256(*z) > n)
+
+//@ func NewInt
+//@ assumed
+//@ pure
+//@ ensures result != nil && fresh(result) && u256(*result) == val
